@@ -216,12 +216,82 @@ func (r *rs) r7() {
 		}
 		return true
 	}
-	opq := flow.Opaque(g, about, i)
+	// lin looks through integer conversions; a guard that narrows or re-interprets the sign of what it
+	// tests is not the comparison lin sees. Such a fact is not understood - except the unsigned range
+	// idiom `uintN(idx) < uintN(len)` with N at least the width of idx, which says 0 <= idx < len at once.
+	sizes := types.StdSizes{WordSize: 8, MaxAlign: 8}
+	convs := func(e ast.Expr) (wideUnsigned []ast.Expr, unsafe bool) {
+		core.Inspect(e, func(m ast.Node) bool {
+			call, ok := m.(*ast.CallExpr)
+			if !ok || len(call.Args) != 1 {
+				return true
+			}
+			tv, isConv := info.Types[call.Fun]
+			if !isConv || !tv.IsType() {
+				return true
+			}
+			to, ok1 := tv.Type.Underlying().(*types.Basic)
+			from, ok2 := info.TypeOf(call.Args[0]).Underlying().(*types.Basic)
+			if !ok1 || !ok2 || to.Info()&types.IsInteger == 0 || from.Info()&types.IsInteger == 0 || from.Info()&types.IsUntyped != 0 {
+				return true
+			}
+			if cv, isC := info.Types[call.Args[0]]; isC && cv.Value != nil {
+				return true
+			}
+			st, sf := sizes.Sizeof(to), sizes.Sizeof(from)
+			toU, fromU := to.Info()&types.IsUnsigned != 0, from.Info()&types.IsUnsigned != 0
+			switch {
+			case st < sf:
+				unsafe = true
+			case toU && !fromU:
+				wideUnsigned = append(wideUnsigned, call.Args[0])
+			case !toU && fromU && st == sf:
+				unsafe = true
+			}
+			return true
+		})
+		return
+	}
+	// unsignedRange: f says uintN(E) < (or <=) something non-negative with E == the table index
+	unsignedRange := func(f cfgq.Fact) bool {
+		x, y, op, ok := flow.Rel(f)
+		if !ok {
+			return false
+		}
+		if op == token.GTR || op == token.GEQ {
+			x, y = y, x
+		} else if op != token.LSS && op != token.LEQ {
+			return false
+		}
+		wide, unsafe := convs(x)
+		xc, isCall := ast.Unparen(flow.ValueOf(info, fn.Decl.Body, ast.Unparen(x))).(*ast.CallExpr)
+		if isCall {
+			wide, unsafe = convs(xc)
+		}
+		if unsafe || len(wide) != 1 || !isCall || len(xc.Args) != 1 || xc.Args[0] != wide[0] {
+			return false
+		}
+		_, yUnsafe := convs(y)
+		return !yUnsafe && lin.Of(info, wide[0]).Equal(idx)
+	}
+	if _, narrowed := convs(flow.ValueOf(info, fn.Decl.Body, ast.Unparen(ix.Index))); narrowed {
+		c.Undecidedf("R7.bias", "itos/lookup", ix.Pos(), "the table index %s narrows (or re-signs) the argument: it is not the linear index the guards are compared with", c.Src(ix.Index))
+		return
+	}
+	plain := func(f cfgq.Fact) bool { w, u := convs(f.Expr); return len(w) == 0 && !u }
+	aboutPlain := func(f cfgq.Fact) bool { return about(f) && (plain(f) || unsignedRange(f)) }
+	opq := flow.Opaque(g, aboutPlain, i)
 	r.guard("R7.bias", "itos/lower-guard", ret.Pos(), g, rp, func(f cfgq.Fact) bool {
+		if unsignedRange(f) {
+			return true
+		}
 		lo, isLower, ok := flow.Bound(info, f, iform)
-		return ok && isLower && lo+k2 >= 0
+		return ok && plain(f) && isLower && lo+k2 >= 0
 	}, opq, "the table lookup must be guarded by index >= 0: integers below the table's range would index out of range")
 	r.guard("R7.bias", "itos/upper-guard", ret.Pos(), g, rp, func(f cfgq.Fact) bool {
+		if !plain(f) && !unsignedRange(f) {
+			return false
+		}
 		if hi, isLower, ok := flow.Bound(info, f, iform); ok && !isLower && size >= 0 && hi+k2 < size {
 			return true
 		}
